@@ -89,7 +89,7 @@ RecursionSound == (S.res = "err" /\ S.err.cls = "recursion") => I!OnStack(S, S.c
 
 NodeView(n) == [k |-> n.k, file |-> n.file, ftok |-> n.ftok, trace |-> n.trace, qtrace |-> n.qtrace, parent |-> n.parent]
 Emit == (S'.res # "run" /\ S.res = "run") =>
-          PrintT("E " \o ToJson([content |-> content, res |-> S'.res, err |-> S'.err, opened |-> S'.opened,
+          PrintT("E " \o ToJson([content |-> content, res |-> S'.res, err |-> S'.err, opened |-> S'.opened, cyc |-> S'.cyc,
                                  nodes |-> [j \in 1..Len(S'.T.nodes) |-> NodeView(S'.T.nodes[j])],
                                  dup |-> I!DupTypeNode(S'.T)]))
 =============================================================================
